@@ -100,6 +100,7 @@ def run(prop, tier, seed):
         with mp.get_context('fork').Pool(1) as pool:
             ls = pool.apply(_ls_elements, (0,))
         pools.update(ls)
+        pools['fsrule_un'] = list(pools.get('fsrule', []))       # the same rules through the MP_UNREACH_NLRI decoder
         jobs = []
         ident = 0
         reps_n = 6 if tier == 'quick' else 14
